@@ -375,7 +375,7 @@ class Report:
 
 
 def run_apalache_inductive(module_dir: Path, module: str, init: str, indinit: str, inv: str, cinit: str = "ConstInit", timeout: float = 600) -> dict:
-    """Discharge `inv` as an inductive invariant with Apalache: Init => Inv (length 0) and Inv /\ Next => Inv' (length 1)."""
+    """Discharge `inv` as an inductive invariant with Apalache: Init => Inv (length 0) and Inv & Next => Inv' (length 1)."""
     out = {}
     for name, i, length in (("base", init, 0), ("step", indinit, 1)):
         d = scratch()
